@@ -119,5 +119,21 @@ buf[1] = np.array([0.5, 1.5])
 check("A4' an item store casts silently to the buffer's dtype (float layer into an integer buffer is truncated)", buf[1].tolist() == [0, 1])
 gm = ma.array([1.0, 2.0], mask=[False, True])
 check("A24 ma.getmaskarray(m) is m's own mask buffer when m has a mask", ma.getmaskarray(gm) is gm.mask or np.shares_memory(ma.getmaskarray(gm), gm.mask))
+import os  # noqa: E402
+
+sys.path.insert(0, os.path.dirname(os.path.dirname(os.path.abspath(__file__))))
+from engine.arrays import UNARY_UFUNCS  # noqa: E402
+um = ma.array([0.25, 0.5, 0.75], mask=[False, True, False])
+bad_unary = []
+with np.errstate(all="ignore"):
+    for fn_ in sorted(UNARY_UFUNCS):
+        for ns in (np, ma):
+            f_ = getattr(ns, fn_, None)
+            if f_ is None:
+                continue
+            r_ = f_(um)
+            if not (isinstance(r_, ma.MaskedArray) and r_.shape == um.shape and bool(ma.getmaskarray(r_)[1]) and r_ is not um and not np.shares_memory(r_.data, um.data)):
+                bad_unary.append("%s.%s" % (ns.__name__, fn_))
+check("A25 one-argument element-wise functions keep shape and missing cells and return a fresh masked array %s" % bad_unary, not bad_unary)
 print("%d axiom check(s) failed" % len(FAIL))
 sys.exit(1 if FAIL else 0)
